@@ -7,10 +7,11 @@ export VERIF_ROOT="$ROOT"
 . ./env.sh
 RACE="${1:-0}"
 mkdir -p "$VERIF_BUILD"
-cp /repo/go.sum harness/go.sum
-( cd /repo && go build -tags verif -o "$VERIF_BUILD/gogreement.new" ./cmd/gogreement ) && mv "$VERIF_BUILD/gogreement.new" "$VERIF_BUILD/gogreement"
+cp "$VERIF_REPO/go.sum" harness/go.sum
+if [ "$VERIF_REPO" != /repo ]; then ( cd harness && go mod edit -replace github.com/a14e/gogreement="$VERIF_REPO" ); fi
+( cd "$VERIF_REPO" && go build -tags verif -o "$VERIF_BUILD/gogreement.new" ./cmd/gogreement ) && mv "$VERIF_BUILD/gogreement.new" "$VERIF_BUILD/gogreement"
 ( cd harness && go build -tags verif -o "$VERIF_BUILD/vcheck.new" ./cmd/vcheck ) && mv "$VERIF_BUILD/vcheck.new" "$VERIF_BUILD/vcheck"
 if [ "$RACE" = 1 ]; then
-  ( cd /repo && go build -race -tags verif -o "$VERIF_BUILD/gogreement-race.new" ./cmd/gogreement ) && mv "$VERIF_BUILD/gogreement-race.new" "$VERIF_BUILD/gogreement-race"
+  ( cd "$VERIF_REPO" && go build -race -tags verif -o "$VERIF_BUILD/gogreement-race.new" ./cmd/gogreement ) && mv "$VERIF_BUILD/gogreement-race.new" "$VERIF_BUILD/gogreement-race"
   ( cd harness && go build -race -tags verif -o "$VERIF_BUILD/vcheck-race.new" ./cmd/vcheck ) && mv "$VERIF_BUILD/vcheck-race.new" "$VERIF_BUILD/vcheck-race"
 fi
